@@ -41,7 +41,9 @@ CHAINS = ["A", "B", "C", "AA", "", "AAAA", "AAAB", "AAA", "AB"]
 INS = ["", "A", "B", "a"]
 NAMES = ["ALA", "GLY", "HOH", "LIG", "A1LU6", "A1LU7", "A1LU", "A1L", "DA", "A", "GLYX", "GLYY"]
 FNS = ["sum", "max", "len", "first", "minmax"]
-XFNS = ["mean0", "sum0", "half", "anypos", "minmaxmean"]     # result dtype differs from the data dtype
+XFNS = ["mean0", "sum0", "half", "anypos", "minmaxmean",     # result dtype differs from the data dtype
+        "sumall", "maxall", "minall",                          # np.sum/np.max/np.min without axis: scalar per segment
+        "sumax0", "maxax0", "minax0"]                          # the same with axis=0: one value per column
 N_BOND_TYPES = 10                                            # BondType.ANY .. BondType.AROMATIC (incl. COORDINATION = 8)
 
 KEY_CRASH_DEEP = "C17/find_connected/recursion-depth-crash"
@@ -306,6 +308,8 @@ def _seg_case(rng, atoms=None):
             "spread": {w: [rng.randint(-9, 99) for _ in range(_n_segments(atoms, w))] for w in "rc"},
             "bad_spread": ([rng.randint(0, 9) for _ in range(rng.choice([0, 1, 2, 3, 7]))] if rng.random() < 0.15 else None)}
     case["applyx"] = [_gen_applyx(rng, n) for _ in range(rng.choice([1, 1, 2]))]
+    # the same annotations in an AtomArrayStack whose model count differs from the atom count (len(stack) != atoms)
+    case["stack"] = rng.choice([d for d in (1, 2, 3, 5, n + 1, max(1, n - 1), 2 * n + 2) if d != n]) if rng.random() < 0.35 else 0
     case["ops"] = _seg_ops(case)
     return case
 
@@ -319,12 +323,17 @@ def _gen_applyx(rng, n):
         data = [rng.randint(0, 1) for _ in range(m)]
     else:
         data = [rng.randint(-9, 9) for _ in range(m)]
-    return {"fn": rng.choice(XFNS), "kind": kind, "cols": cols, "data": data}
+    fn = rng.choice(XFNS)
+    if fn.endswith("all") and cols < 2 and rng.random() < 0.7:
+        cols = rng.choice([2, 3])                         # multi-dimensional data reduced without an axis
+        data = [rng.randint(0, 1) if kind == "b" else rng.randint(-9, 9) for _ in range(n * cols)]
+    return {"fn": fn, "kind": kind, "cols": cols, "data": data}
 
 
 def _seg_ops(case):
     atoms = case["atoms"]
-    ops = ["atoms " + (",".join(":".join(str(x) for x in a) for a in atoms) if atoms else "_")]
+    ops = [f"stack {case['stack']}"] if case.get("stack") else []
+    ops.append("atoms " + (",".join(":".join(str(x) for x in a) for a in atoms) if atoms else "_"))
     for w in "rc":
         ops += [f"starts {w} 0", f"starts {w} 1", f"count {w}", f"names {w}", f"iter {w}",
                 f"masks {w} {_ints(case['idx'])}", f"startsfor {w} {_ints(case['idx'])}",
@@ -379,15 +388,53 @@ def _gen_graph(rng):
         b.append(rng.randrange(N_BOND_TYPES) if mode < 0.7 else rng.choice([8, 0, 9, 1]) if mode < 0.9 else 1)
     roots = [rng.randrange(n) for _ in range(min(n, 3))] if n else []
     bad_roots = rng.sample([-1, n, n + 3, -n - 1, 2 ** 32, 2 ** 32 - 1], 2) if rng.random() < 0.4 else []
-    case = {"kind": "graph", "n": n, "bonds": bonds, "roots": roots, "bad_roots": bad_roots}
+    case = {"kind": "graph", "n": n, "bonds": bonds, "roots": roots, "bad_roots": bad_roots,
+            "edits": [], "second": None}
+    uniq = {tuple(sorted(b[:2])) for b in bonds}
+    if n >= 3 and uniq and rng.random() < 0.6:
+        # edit the same BondList in place between two molecule queries: one bond out, another in (count unchanged)
+        for _ in range(rng.choice([1, 1, 2, 3])):
+            free = [(a, b) for a in range(n) for b in range(a + 1, n) if (a, b) not in uniq]
+            if not free or not uniq:
+                break
+            rm = rng.choice(sorted(uniq))
+            add = rng.choice(free)
+            uniq.discard(rm)
+            uniq.add(add)
+            rm, add = list(rm), list(add)
+            if rng.random() < 0.5:
+                rm.reverse()
+            if rng.random() < 0.5:
+                add.reverse()
+            case["edits"].append(rm + add + [rng.randrange(N_BOND_TYPES)])
+    if n >= 3 and uniq and rng.random() < 0.4:
+        # a new BondList with the same atom and bond count but re-labelled atoms, built after the first was dropped
+        perm = list(range(n))
+        rng.shuffle(perm)
+        case["second"] = [[perm[a], perm[b], rng.randrange(N_BOND_TYPES)] for a, b in sorted(uniq)]
     case["ops"] = _graph_ops(case)
     return case
+
+
+def _apply_edits(bonds, edits):
+    """The bond pairs after the in-place edits (remove bond i-j in either orientation, then add k-l)."""
+    cur = [list(b) for b in bonds]
+    states = []
+    for ri, rj, ai, aj, t in edits:
+        cur = [b for b in cur if {b[0], b[1]} != {ri, rj} or (b[0] == b[1]) != (ri == rj)]
+        cur.append([ai, aj, t])
+        states.append([list(b) for b in cur])
+    return states
 
 
 def _graph_ops(case):
     ops = [f"graph {case['n']} " + (",".join("-".join(str(x) for x in b) for b in case["bonds"]) if case["bonds"] else "_")]
     ops += [f"connected {r}" for r in case["roots"] + case.get("bad_roots", [])]
     ops += ["molecules", "molmasks"]
+    for ri, rj, ai, aj, t in case.get("edits") or []:
+        ops += [f"rmbond {ri} {rj}", f"addbond {ai} {aj} {t}", "molecules", "molmasks"]
+    if case.get("second"):
+        ops += [f"graph {case['n']} " + ",".join("-".join(str(x) for x in b) for b in case["second"]), "molecules", "molmasks"]
     return ops
 
 
@@ -414,7 +461,7 @@ def _mk(atoms, **kw):
     c = {"kind": "seg", "atoms": atoms, "idx": kw.get("idx", []), "bad_idx": kw.get("bad_idx"),
          "data": kw.get("data", list(range(len(atoms)))), "fn": kw.get("fn", "sum"),
          "spread": {w: list(range(_n_segments(atoms, w))) for w in "rc"}, "bad_spread": kw.get("bad_spread"),
-         "applyx": kw.get("applyx", [])}
+         "applyx": kw.get("applyx", []), "stack": kw.get("stack", 0)}
     c["ops"] = _seg_ops(c)
     return c
 
@@ -435,6 +482,18 @@ def corpus():
             {"fn": "minmaxmean", "kind": "i", "cols": 0, "data": [1, 2, 3, 4, 6]},
             {"fn": "half", "kind": "i", "cols": 3, "data": list(range(15))}]),
         _mk([], applyx=[{"fn": "mean0", "kind": "i", "cols": 2, "data": []}]),
+        # an (n, k) table reduced with np.sum / np.max / np.min and no axis: one scalar per segment; with axis=0: per column
+        _mk([[0, 1, 0, 0], [0, 1, 0, 0], [0, 2, 0, 0], [1, 2, 0, 0], [1, 1, 0, 0]], applyx=[
+            {"fn": "sumall", "kind": "i", "cols": 3, "data": list(range(15))},
+            {"fn": "maxall", "kind": "f", "cols": 2, "data": [3, -1, 2, 9, -4, 0, 7, 7, 1, 2]},
+            {"fn": "minall", "kind": "b", "cols": 2, "data": [1, 1, 1, 0, 1, 1, 0, 0, 1, 1]},
+            {"fn": "sumax0", "kind": "i", "cols": 3, "data": list(range(15))},
+            {"fn": "maxax0", "kind": "i", "cols": 0, "data": [5, 3, 9, -2, 0]}]),
+        # an AtomArrayStack whose model count (2, 7) differs from its atom count (5 / 0 atoms)
+        _mk([[0, 1, 0, 0], [0, 1, 0, 0], [0, 2, 0, 0], [1, 2, 0, 0], [1, 1, 0, 0]], idx=[0, 2, 4], bad_idx=[5], stack=2,
+            fn="minmax", applyx=[{"fn": "mean0", "kind": "i", "cols": 2, "data": list(range(10))}]),
+        _mk([[0, 1, 0, 0], [0, 1, 0, 0], [0, 2, 0, 0]], idx=[2], stack=7),
+        _mk([], stack=3, bad_idx=[0]),
         # residue names / chain ids that differ only in the 4th/5th (4th) character
         _mk([[5, 1, 0, 4, 1], [5, 1, 0, 5, 1], [6, 1, 0, 5, 1], [6, 1, 0, 6, 1], [6, 1, 0, 7, 1]], idx=[0, 1, 2, 3, 4]),
         # waters whose numbering restarts inside one chain id: a new chain starts at the res_id decrease
@@ -448,6 +507,9 @@ def corpus():
         # a metal ion (atom 2) bridging two ligands by COORDINATION bonds; one bond of every type
         {"kind": "graph", "n": 5, "bonds": [[0, 1, 1], [1, 2, 8], [2, 3, 8], [3, 4, 2]], "roots": [0, 2, 4], "bad_roots": []},
         {"kind": "graph", "n": 12, "bonds": [[i, i + 1, i] for i in range(10)], "roots": [0, 5, 11], "bad_roots": []},
+        # the same BondList edited in place between two queries (one bond out, one in), then a same-sized new one
+        {"kind": "graph", "n": 6, "bonds": [[0, 1, 1], [1, 2, 1], [3, 4, 2]], "roots": [0], "bad_roots": [],
+         "edits": [[1, 2, 4, 5, 1], [0, 1, 2, 3, 8]], "second": [[0, 5, 1], [1, 4, 1], [2, 3, 1]]},
     ]
     for c in g:
         c["ops"] = _graph_ops(c)
@@ -455,10 +517,11 @@ def corpus():
 
 
 # ---------------------------------------------------------------- implementation adapter
-def _atom_array(atoms):
+def _atom_array(atoms, depth=0):
+    """AtomArray, or (depth > 0) an AtomArrayStack of `depth` models carrying the same annotations."""
     import numpy as np
     import biotite.structure as struc
-    a = struc.AtomArray(len(atoms))
+    a = struc.AtomArrayStack(depth, len(atoms)) if depth else struc.AtomArray(len(atoms))
     a.chain_id = np.array([CHAINS[x[0]] for x in atoms], dtype="U4")
     a.res_id = np.array([x[1] for x in atoms], dtype=int)
     a.ins_code = np.array([INS[x[2]] for x in atoms], dtype="U1")
@@ -475,10 +538,24 @@ def _pyfn(name):
 
 
 def _xfn(name):
+    """(function, axis): the function object handed to apply_*_wise and its `axis` argument (None = not given).
+    The `*all` / `*ax0` entries pass numpy's own np.sum / np.max / np.min objects, without and with axis=0."""
     import numpy as np
-    return {"mean0": (lambda s: np.mean(s, axis=0)), "sum0": (lambda s: np.sum(s, axis=0)),
-            "half": (lambda s: np.sum(s, axis=0) / 2), "anypos": (lambda s: (s > 0).any(axis=0)),
-            "minmaxmean": (lambda s: np.array([s.min(), s.max(), s.mean()]))}[name]
+    return {"mean0": ((lambda s: np.mean(s, axis=0)), None), "sum0": ((lambda s: np.sum(s, axis=0)), None),
+            "half": ((lambda s: np.sum(s, axis=0) / 2), None), "anypos": ((lambda s: (s > 0).any(axis=0)), None),
+            "minmaxmean": ((lambda s: np.array([s.min(), s.max(), s.mean()])), None),
+            "sumall": (np.sum, None), "maxall": (np.max, None), "minall": (np.min, None),
+            "sumax0": (np.sum, 0), "maxax0": (np.max, 0), "minax0": (np.min, 0)}[name]
+
+
+def _xapply(apply_fn, arr, data, name):
+    f, axis = _xfn(name)
+    return apply_fn(arr, data, f) if axis is None else apply_fn(arr, data, f, axis=axis)
+
+
+def _xdirect(name, seg):
+    f, axis = _xfn(name)
+    return f(seg) if axis is None else f(seg, axis=axis)
 
 
 def _xdata(x, n):
@@ -544,6 +621,7 @@ def _seg_impl(case):
     import biotite.structure as struc
     out = []
     arr = None
+    depth = 0
     F = {"r": dict(starts=struc.get_residue_starts, masks=struc.get_residue_masks, startsfor=struc.get_residue_starts_for,
                    positions=struc.get_residue_positions, apply=struc.apply_residue_wise, spread=struc.spread_residue_wise,
                    iter=struc.residue_iter, count=struc.get_residue_count),
@@ -553,9 +631,12 @@ def _seg_impl(case):
     for op in case["ops"]:
         w = op.split()
         try:
-            if w[0] == "atoms":
+            if w[0] == "stack":
+                depth = int(w[1])
+                out.append("ok")
+            elif w[0] == "atoms":
                 atoms = [] if w[1] == "_" else [[int(x) for x in a.split(":")] for a in w[1].split(",")]
-                arr = _atom_array(atoms)
+                arr = _atom_array(atoms, depth)
                 out.append(f"ok {arr.array_length()}")
             elif w[0] == "starts":
                 out.append("ok " + _ints(F[w[1]]["starts"](arr, add_exclusive_stop=(w[2] == "1"))))
@@ -582,7 +663,7 @@ def _seg_impl(case):
                 out.append("ok " + _ints(F[w[1]]["spread"](arr, np.array(_parse(w[2]), dtype=int))))
             elif w[0] == "applyx":
                 x = {"fn": w[2], "kind": w[3], "cols": int(w[4]), "data": _parse(w[5])}
-                out.append(_show_applyx(F[w[1]]["apply"](arr, _xdata(x, arr.array_length()), _xfn(w[2]))))
+                out.append(_show_applyx(_xapply(F[w[1]]["apply"], arr, _xdata(x, arr.array_length()), w[2])))
             else:
                 out.append("bad-op")
         except Exception as e:  # noqa: BLE001
@@ -608,6 +689,12 @@ def _graph_impl_child(case):
                 n = int(w[1])
                 bonds = [] if w[2] == "_" else [[int(x) for x in b.split("-")] for b in w[2].split(",")]
                 bl = struc.BondList(n, _bond_array(bonds))
+                out.append("ok")
+            elif w[0] == "rmbond":
+                bl.remove_bond(int(w[1]), int(w[2]))
+                out.append("ok")
+            elif w[0] == "addbond":
+                bl.add_bond(int(w[1]), int(w[2]), int(w[3]))
                 out.append("ok")
             elif w[0] == "connected":
                 out.append("ok " + _ints(struc.find_connected(bl, int(w[1]))))
@@ -667,7 +754,7 @@ def _seg_oracle(case):
     import biotite.structure as struc
     atoms = case["atoms"]
     n = len(atoms)
-    arr = _atom_array(atoms)
+    arr = _atom_array(atoms, case.get("stack") or 0)
     data = np.array(case["data"], dtype=int)
     v = []
     pre = "C17/empty-array/" if n == 0 else "C17/"
@@ -775,11 +862,10 @@ def _seg_oracle(case):
         # predicates -> bool, array-valued results): value AND dtype kind of a direct per-segment recomputation
         for x in case.get("applyx") or []:
             xd = _xdata(x, n)
-            xf = _xfn(x["fn"])
-            ok, got = call(f"apply_{nm}_wise", f_apply, arr, xd, xf)
+            ok, got = call(f"apply_{nm}_wise", _xapply, f_apply, arr, xd, x["fn"])
             if not ok:
                 continue
-            exp = [np.asarray(xf(xd[m])) for m in members]
+            exp = [np.asarray(_xdirect(x["fn"], xd[m])) for m in members]
             what = f"apply({x['fn']}) on {x['kind']}-data shape {xd.shape}"
             if got is None:
                 bad(f"apply_{nm}_wise/returns-None", f"{what} returned None")
@@ -874,6 +960,35 @@ def _graph_oracle_child(case):
             v.append(("C17/find_connected/accepts-invalid-root", f"n={n} root={r} returned {list(map(int, c))[:10]}"))
         except (ValueError, OverflowError, IndexError):
             pass
+
+    def recheck(tag, blist, cur, what):
+        """the molecules of `blist` must be the components of the bonds it holds NOW, whatever was asked before"""
+        e = _components(n, cur)
+        g = sorted([int(x) for x in m] for m in struc.get_molecule_indices(blist))
+        if g != e:
+            v.append((f"C17/get_molecule_indices/{tag}", f"n={n} {what}: {g} != connected components {e}"))
+        mk = struc.get_molecule_masks(blist)
+        if mk.shape != (len(e), n) or sorted([i for i in range(n) if r[i]] for r in mk) != e:
+            v.append((f"C17/get_molecule_masks/{tag}", f"n={n} {what}: masks differ from connected components {e}"))
+        a2 = struc.AtomArray(n)
+        a2.set_annotation("uid", np.arange(n, dtype=int))
+        a2.bonds = blist
+        mi = sorted([int(u) for u in m.uid] for m in struc.molecule_iter(a2))
+        if mi != e:
+            v.append((f"C17/molecule_iter/{tag}", f"n={n} {what}: {mi} != {e}"))
+
+    edits = case.get("edits") or []
+    for k, (ed, cur) in enumerate(zip(edits, _apply_edits(bonds, edits))):
+        bl.remove_bond(ed[0], ed[1])
+        bl.add_bond(ed[2], ed[3], ed[4])
+        recheck("components-after-in-place-edit", bl, cur,
+                f"bonds={bonds} after in-place edits {edits[:k + 1]} (bond count unchanged)")
+    if case.get("second"):
+        arr.bonds = None
+        del bl
+        bl2 = struc.BondList(n, _bond_array(case["second"]))
+        recheck("components-second-bondlist", bl2, case["second"],
+                f"second BondList {case['second']} built after one of the same size (first: {bonds}, edits {edits})")
     return v
 
 
